@@ -81,9 +81,9 @@ let run (f : string list) : string =
                    let g = (match std_json_value lybytes with
                             | Some v -> v = json_tree sch tabs jk (prune sel fo)
                             | None -> false) in
-                   (* LIBYANG's bytes against the RFC 7951 rendering of the selected part (claimed where the selection is
-                      uniform on every run of instances: explicit and report-all on validated trees; not in trim mode) *)
-                   let d = (o land 0x10 <> 0) || lybytes = json_doc sch tabs jk (prune sel fo) in
+                   (* LIBYANG's bytes against the RFC 7951 rendering of the selected part: every with-defaults mode (trim
+                      included since f592167) *)
+                   let d = lybytes = json_doc sch tabs jk (prune sel fo) in
                    Some (Printf.sprintf "j%d %s R=%d G=%d D=%d" o (hex mine) (if r then 1 else 0) (if g then 1 else 0)
                            (if d then 1 else 0))
                  end
